@@ -141,7 +141,12 @@ def _history(draw, depth, shape=None, max_ops=40):
     else:
         m, n = shape
     ops = draw(st.lists(_op(m, n, depth), max_size=max_ops))
-    return {"shape": [m, n], "ops": ops}
+    out = {"shape": [m, n], "ops": ops}
+    if shape is None:
+        # all written values times 2^e: ordinary magnitudes, or tiny ones (1e-14 ... 1e-18: masses and compliances of
+        # micro-scale models); powers of two keep every sum exact
+        out["scale_exp"] = draw(st.sampled_from([0, 0, 0, -45, -60]))
+    return out
 
 
 def strategy(tier):
@@ -163,12 +168,18 @@ def static_cases(tier):
     ]
 
 
+_SCALE = [1.0]
+
+
 def _build(hist, stats):
     """Apply a history to a fresh CooMatrix and to the dense model. Returns (coo, model, failures)."""
     from cardillo.utility.coo_matrix import CooMatrix
     from scipy.sparse import coo_array, csr_array, csc_array
 
     m, n = hist["shape"]
+    if "scale_exp" in hist:
+        _SCALE[0] = 2.0 ** hist["scale_exp"]
+    sc = _SCALE[0]
     coo = CooMatrix((m, n))
     model = np.zeros((m, n))
     touched = np.zeros((m, n), dtype=int)
@@ -184,28 +195,28 @@ def _build(hist, stats):
         if kind == "none":
             value = None
         elif kind == "dense":
-            block = np.array(v["v"], dtype=float).reshape(r, c)
-            dt = v.get("dtype", "float64")
+            block = np.array(v["v"], dtype=float).reshape(r, c) * sc
+            dt = v.get("dtype", "float64") if sc == 1.0 else "float64"
             if dt != "float64":
                 typed = (np.round(block) > 0) if dt == "bool" else np.round(block).astype(dt)
                 block = typed.astype(float)
                 value = typed
             else:
                 # alternate between ndarray and nested-list values
-                value = [list(row) for row in v["v"]] if (i % 2 == 0 and r * c > 0) else block.copy()
+                value = [list(row) for row in block.tolist()] if (i % 2 == 0 and r * c > 0) else block.copy()
         elif kind == "scalar":
-            block = np.array([[v["v"]]])
-            value = v["v"]
+            block = np.array([[v["v"] * sc]])
+            value = v["v"] * sc
         elif kind == "vec":
-            block = np.array(v["v"], dtype=float).reshape(1, c)
-            value = np.array(v["v"], dtype=float)
+            block = np.array(v["v"], dtype=float).reshape(1, c) * sc
+            value = np.array(v["v"], dtype=float) * sc
         elif kind in ("coo", "csr", "csc"):
             block = np.zeros((r, c))
             ent = v["v"]
-            dt = v.get("dtype", "float64")
+            dt = v.get("dtype", "float64") if sc == 1.0 else "float64"
             rows = np.array([e[0] for e in ent], dtype=int)
             cols = np.array([e[1] for e in ent], dtype=int)
-            data = np.array([e[2] for e in ent], dtype=float)
+            data = np.array([e[2] for e in ent], dtype=float) * sc
             if dt != "float64":
                 data = (np.round(data) > 0) if dt == "bool" else np.round(data).astype(dt)
             value = coo_array((data, (rows, cols)), shape=(r, c))
@@ -284,6 +295,7 @@ def check(spec):
 
     res = Result()
     stats = {"kinds": set(), "bad": 0, "compared": 0, "overlap": False}
+    _SCALE[0] = 1.0
     coo, model, fails = _build(spec, stats)
     for sub, site, mag, detail in fails:
         res.fail(sub, site, mag, {}, detail)
